@@ -85,6 +85,7 @@ def main():
     ap.add_argument("--only")
     ap.add_argument("--jobs", type=int, default=3)
     ap.add_argument("--seed", type=int, default=1)
+    ap.add_argument("--dry", action="store_true", help="print the verdicts only (do not update meta.json / MATRIX.json)")
     a = ap.parse_args()
     os.makedirs("/tmp/wt", exist_ok=True)
     names = sorted(n for n in os.listdir(SEEDED) if os.path.isdir(os.path.join(SEEDED, n)))
@@ -95,6 +96,10 @@ def main():
     with concurrent.futures.ThreadPoolExecutor(a.jobs) as ex:
         for res in ex.map(lambda n: one(n, a.seed), names):
             name = res["name"]
+            if a.dry:
+                print("%-8s seed=%s check rc=%s %s %s" % (name, a.seed, res.get("check_rc"), ",".join(res.get("violations") or [])[:150],
+                                                        res.get("error", "")), flush=True)
+                continue
             matrix[name] = res
             mp = os.path.join(SEEDED, name, "meta.json")
             meta = json.load(open(mp)) if os.path.exists(mp) else {"property": res["property"]}
